@@ -34,7 +34,8 @@ PostTrees == FlattenSeq([i \in 1..Len(Ops2) |-> LET o == Ops2[i] IN
 ChainTrees == << Call(Call(A, <<>>), <<B>>), Idx(Idx(A, B), C), Prop(Prop(A, "k"), "m"), Call(Idx(Prop(A, "k"), B), <<C>>), Prop(Call(Idx(A, B), <<>>), "k"), Idx(Call(Prop(A, "k"), <<B>>), C),
                  Asg("a", Asg("b", C)), IAsg(A, B, PAsg(C, "k", Asg("d", L1))), PAsg(Prop(A, "k"), "m", B), IAsg(Idx(A, B), C, D), Un("-", Un("!", Un("~", A))),
                  Un("-", Bin("**", A, B)), Bin("**", Un("-", A), B), Bin("**", A, Un("-", B)), Bin("**", Bin("**", A, B), C), Bin("**", A, Bin("**", B, C)),
-                 Bin("-", Bin("-", A, B), C), Bin("-", A, Bin("-", B, C)), Bin("/", Bin("/", A, B), C), Bin("/", A, Bin("/", B, C)),
+                 Bin("-", Bin("-", A, B), C), Bin("-", A, Bin("-", B, C)),
+                 Bin("+", Bin("+", A, L1), L2), Bin("-", Bin("+", A, L1), L2), Bin("+", Bin("-", A, L1), L2), Bin("-", Bin("-", A, L1), L2), Bin("+", Bin("+", L1, L2), A), Bin("*", Bin("*", A, L1), L2), Bin("/", Bin("/", A, B), C), Bin("/", A, Bin("/", B, C)),
                  Call(Un("-", A), <<>>), Idx(Un("!", A), B), Prop(Un("~", A), "k"), Call(Arr(<<A>>), <<>>), Idx(Arr(<<A, B>>), L1), Prop(Obj(<<"k">>, <<A>>), "k"),
                  Call(Grp(Asg("a", B)), <<>>), Arr(<<>>), Obj(<<>>, <<>>), Call(A, <<>>), Arr(<<Arr(<<Arr(<<>>)>>)>>), Obj(<<"a">>, <<Obj(<<"b">>, <<Obj(<<>>, <<>>)>>)>>) >>
 
